@@ -18,6 +18,11 @@ PLAN = {
  "C13-m3": ["C13"], "C13-m4": ["C13"], "C14-m3": ["C14"], "C14-m4": ["C14"], "C15-m3": ["C15"], "C15-m4": ["C15"],
  "C16-m3": ["C16"], "C16-m4": ["C16"], "C17-m3": ["C17"], "C17-m4": ["C17"], "C18-m3": ["C18"], "C18-m4": ["C18", "C04", "C20"],
  "C19-m3": ["C19"], "C19-m4": ["C19", "C03", "C05"], "C20-m3": ["C20"], "C20-m4": ["C20", "C04"],
+ # round 3
+ "C02-m5": ["C02"], "C02-m6": ["C02", "C04"], "C03-m5": ["C03", "C04"], "C03-m6": ["C03", "C05"], "C04-m5": ["C04"], "C04-m6": ["C04", "C10"],
+ "C05-m5": ["C05"], "C05-m6": ["C05"], "C07-m5": ["C07"], "C07-m6": ["C07", "C04"], "C11-m5": ["C11", "C14"], "C11-m6": ["C11", "C04"],
+ "C12-m5": ["C12", "C04"], "C12-m6": ["C12", "C02"], "C13-m5": ["C13"], "C13-m6": ["C13"], "C19-m5": ["C19", "C05"], "C19-m6": ["C19"],
+ "C20-m5": ["C20"], "C20-m6": ["C20", "C04"],
 }
 only = sys.argv[1:]
 path = os.path.join(HERE, "seeded", "detection.json")
